@@ -674,11 +674,12 @@ pfn2idx_map_add(struct pfn2idx_map *map, struct pfn2idx_range *range,
 {
 	kdump_status status;
 
-	if (range->len > 0 && pfn == range->pfn + 1)
+	/* A run must not wrap around the end of the PFN space. */
+	if (range->len > 0 && pfn == range->pfn + 1 && pfn > range->pfn)
 		++range->len;
-	else if (range->len < 0 && pfn == range->pfn - 1)
+	else if (range->len < 0 && pfn == range->pfn - 1 && pfn < range->pfn)
 		--range->len;
-	else if (range->len == 1 && pfn == range->pfn - 1)
+	else if (range->len == 1 && pfn == range->pfn - 1 && pfn < range->pfn)
 		range->len = -2;
 	else {
 		status = pfn2idx_map_addrange(map, range);
